@@ -124,8 +124,24 @@ class Handmade(flow.Operator):
         return left.extend(apply, train)
 
 
+class Relabel(flow.Operator):
+    """A label operator written against the public API: a stateless 2:1 worker reads the train features and the labels and
+    becomes the new label tail (``Trunk.use`` / ``Segment.extend(tail=...)``); the train and apply segments are left as they
+    are - so a non-trained worker stays subscribed to the tail of a segment the operator does not extend."""
+
+    def __init__(self, builder: 'flow.Builder'):
+        self._builder = builder
+
+    def compose(self, scope: 'flow.Composable') -> 'flow.Trunk':
+        left = scope.expand()
+        worker = flow.Worker(self._builder, 2, 1)
+        worker[0].subscribe(left.train.publisher)
+        worker[1].subscribe(left.label.publisher)
+        return left.use(label=left.label.extend(tail=worker))
+
+
 def symcls():
-    return {'SymCV': SymCV, 'SymFolds': SymFolds, 'SymDumper': SymDumper, 'Twice': Twice, 'Handmade': Handmade}
+    return {'SymCV': SymCV, 'SymFolds': SymFolds, 'SymDumper': SymDumper, 'Twice': Twice, 'Handmade': Handmade, 'Relabel': Relabel}
 
 
 # ------------------------------------------------------------------------------------------------ generation
@@ -159,6 +175,9 @@ class Gen:
             node['label'] = self.actor()
         if style == 'mapper' and self.rng.random() < 0.3:
             node['handmade'] = True  # same semantics through a hand-written operator sharing one builder object
+        if style == 'label' and self.rng.random() < 0.4:
+            node['label']['stateful'] = False
+            node['relabel'] = True  # labels := f(train features, labels) through a hand-written operator (exprgen.Relabel)
         return node
 
     def operator(self, depth: int, scoped_ok: bool = True) -> dict:
@@ -209,7 +228,7 @@ def signature(expr: dict) -> str:
         return f'({signature(expr["left"])}>>{signature(expr["right"])})'
     if expr['op'] == 'wrap':
         flags = ''.join(('S' if expr[k]['stateful'] else 's') if expr[k] else '-' for k in ('apply', 'train', 'label'))
-        return f'W[{expr["style"]}{"!" if expr.get("handmade") else ""}:{flags}]'
+        return f'W[{expr["style"]}{"!" if expr.get("handmade") or expr.get("relabel") else ""}:{flags}]'
     if expr['op'] == 'mapreduce':
         return 'MR[' + ''.join('S' if m['stateful'] else 's' for m in expr['mappers']) + ']'
     if expr['op'] == 'fullstack':
@@ -232,6 +251,8 @@ def build(expr: dict, log: typing.Optional[str] = None):
         a, t, l = expr['apply'], expr['train'], expr['label']
         if expr.get('handmade'):
             return klass['Handmade'](symbolic.builder(a['name'], a['stateful'], 1, log))
+        if expr.get('relabel'):
+            return klass['Relabel'](symbolic.builder(l['name'], False, 1, log))
         operator = None
         if a and t and a['name'] == t['name']:
             if expr['id'] % 2 and not l:  # hyper-parameters given to the operator instance instead of the decorator
@@ -338,7 +359,7 @@ def denote(expr: typing.Optional[dict], x: Term, y: Term, xa: Term, prev: typing
                 if l['stateful']:
                     sl = fit(l['name'], x, y)
                     fits.append(sl)
-                y2 = app(l['name'], sl, y)
+                y2 = app(l['name'], sl, x, y) if node.get('relabel') else app(l['name'], sl, y)
             states = {}
             for spec in (a, t):  # apply is built first, then train (one state when both name the same builder)
                 if spec and spec['name'] not in states:
